@@ -136,7 +136,8 @@ class Gen:
         is known and not an accepting match"""
         mtok = [v for kk, v in L if kk == 'tok' and KIND[v] == 'm'][0]
         dtok = [v for kk, v in L if kk == 'tok' and KIND[v] == 'd'][0]
-        ycands = [[R_(1900, 2099)], [R_(1900, 1999), R_(2000, 2099)]]
+        ycands = [[R_(1900, 2099)], [R_(1900, 1999), R_(2000, 2099)],
+                  [R_(a, a + 9) for a in range(1900, 2100, 10)], [[a] for a in R_(1900, 2099)]]
         mcands = [self.by_length(mtok, R_(1, 12)), [[i] for i in R_(1, 12)]]
         dcands = [self.by_length(dtok, days), [[i] for i in days]]
         if len(days) > 1:
@@ -331,8 +332,12 @@ theorem front_abs_date_%(low)s_day1 {T : Tables} (hT : LatinAgree T) {u : Uni} (
   obtain ⟨dext, k, hf, hmt, hdt⟩ := layouts_have_facts_%(low)s_day1 L hL
   have hv : (⟨y, m, 1⟩ : RTV.Cal.Date).valid = true := by
     rw [RTV.Cal.valid_iff]
-    refine ⟨by simp only; omega, by simp only; omega, hm.1, hm.2, Nat.le_refl 1, ?_⟩
-    simp only [RTV.Cal.daysInMonth]; split <;> (try split) <;> omega
+    refine ⟨by show 1 ≤ y; omega, by show y ≤ 9999; omega, hm.1, hm.2, Nat.le_refl 1, ?_⟩
+    show 1 ≤ RTV.Cal.daysInMonth y m
+    obtain ⟨h1, h2⟩ := hm
+    have : m = 1 ∨ m = 2 ∨ m = 3 ∨ m = 4 ∨ m = 5 ∨ m = 6 ∨ m = 7 ∨ m = 8 ∨ m = 9 ∨ m = 10 ∨ m = 11 ∨ m = 12 := by omega
+    rcases this with rfl | rfl | rfl | rfl | rfl | rfl | rfl | rfl | rfl | rfl | rfl | rfl <;>
+      simp only [RTV.Cal.daysInMonth] <;> (try split) <;> omega
   exact front_abs_date_gen hT hu hf hmt hdt y m 1 hy hv (by simp) wy R
 '''
 
